@@ -150,6 +150,44 @@ class Mat(object):
         return "Mat(%r)" % (self.m,)
 
 
+class _Timeout(BaseException):
+    pass
+
+
+_AL = []
+
+
+def AL():
+    """ the library under test, imported once (by `impl`, under its own generous watchdog); a failing import
+        is remembered (python would re-run the package initialisation at every attempt) and re-raised for
+        every case """
+    if not _AL:
+        import signal
+        old_handler = signal.signal(signal.SIGALRM, _on_alarm)
+        old_timer = signal.setitimer(signal.ITIMER_REAL, 60.0)
+        try:
+            import audiolazy
+            _AL.append(audiolazy)
+        except _Timeout:
+            _AL.append(ImportError("import of audiolazy does not return within 60 s"))
+        except KeyboardInterrupt:
+            raise
+        except BaseException as e:
+            _AL.append(e)
+        finally:
+            signal.setitimer(signal.ITIMER_REAL, 0)
+            signal.signal(signal.SIGALRM, old_handler)
+            if old_timer[0] > 0:
+                signal.setitimer(signal.ITIMER_REAL, max(old_timer[0], 0.05))
+    if isinstance(_AL[0], BaseException):
+        raise _AL[0].with_traceback(None)      # (a re-raised instance would otherwise grow its traceback)
+    return _AL[0]
+
+
+def _on_alarm(signum, frame):
+    raise _Timeout()
+
+
 class Ignored(object):
     """ instance of a class registered with Stream.register_ignored_class (avoid_stream) """
     def __init__(self, tag):
@@ -164,8 +202,7 @@ _registered = []
 
 def _ensure_registered():
     if not _registered:
-        from audiolazy import Stream
-        Stream.register_ignored_class(Ignored)
+        AL().Stream.register_ignored_class(Ignored)
         _registered.append(True)
 
 
@@ -297,7 +334,7 @@ class Unsupported(Exception):
 
 def build(node, st):
     """ evaluate the tree with the REAL audiolazy objects; same traversal order as `number` """
-    from audiolazy import Stream, ControlStream, thub
+    Stream, ControlStream, thub = AL().Stream, AL().ControlStream, AL().thub
     k = node["k"]
 
     def fresh(v):
@@ -464,7 +501,7 @@ def impl_expr(c):
         return {"err": "UNSUPPORTED:" + str(e)}
     except Exception as e:
         return {"err": err_kind(e)}
-    from audiolazy import Stream
+    Stream = AL().Stream
     obs = {"type_is_stream": isinstance(res, Stream), "reads0": dict((str(k), v) for k, v in st["reads"].items())}
     n = take_n(c)
     items = []
@@ -490,7 +527,7 @@ def _opfunc_name(fn):
 
 
 def impl_optable(c):
-    from audiolazy import OpMethod, Stream
+    OpMethod, Stream = AL().OpMethod, AL().Stream
     ops = []
     for op in OpMethod.get("all"):
         ops.append({"name": op.name, "symbol": op.symbol, "rev": bool(op.rev), "dname": op.dname,
@@ -513,14 +550,46 @@ def impl_optable(c):
     return {"ops": ops, "installed": installed}
 
 
+IMPL_SECONDS = 0.5
+IMPL_BYTES = 6 << 30
+
+
 def impl(c):
-    if c["entry"] == "expr":
-        return impl_expr(c)
-    if c["entry"] == "optable":
-        return impl_optable(c)
-    if c["entry"] == "bcast":
-        return impl_bcast(c)
-    raise ValueError(c["entry"])
+    """ one case on the real code, under a watchdog: a realistic bug can make a lazy stage eager on an
+        endless operand (no return / unbounded memory); that must become an observation, not a hang.
+        The timer counts CPU time of this process (ITIMER_VIRTUAL), so machine load cannot trip it. """
+    import resource
+    import signal
+    try:
+        AL()                      # first use: import outside the per-case watchdog
+    except BaseException:
+        pass
+    old_handler = signal.signal(signal.SIGVTALRM, _on_alarm)
+    soft, hard = resource.getrlimit(resource.RLIMIT_AS)
+    try:
+        resource.setrlimit(resource.RLIMIT_AS, (IMPL_BYTES if hard == resource.RLIM_INFINITY else min(IMPL_BYTES, hard), hard))
+    except (ValueError, OSError):
+        pass
+    signal.setitimer(signal.ITIMER_VIRTUAL, IMPL_SECONDS)
+    try:
+        if c["entry"] == "expr":
+            return impl_expr(c)
+        if c["entry"] == "optable":
+            return impl_optable(c)
+        if c["entry"] == "bcast":
+            return impl_bcast(c)
+        raise ValueError(c["entry"])
+    except _Timeout:
+        return {"err": "TIMEOUT"}
+    except MemoryError:
+        return {"err": "OTHER:MemoryError"}
+    finally:
+        signal.setitimer(signal.ITIMER_VIRTUAL, 0)
+        signal.signal(signal.SIGVTALRM, old_handler)
+        try:
+            resource.setrlimit(resource.RLIMIT_AS, (soft, hard))
+        except (ValueError, OSError):
+            pass
 
 
 def request(c):
@@ -650,7 +719,36 @@ def stream_of(node, ctor="Stream"):
     return {"k": "stream1", "ctor": ctor, "a": node}
 
 
+def pyclass(node):
+    """ python class of the value of a Stream-valued node (ControlStream.map/append/abs return self) """
+    k = node["k"]
+    if k == "stream1":
+        return node.get("ctor", "Stream")
+    if k == "append" or (k == "meth" and (node["l"] == "abs" or node["l"].startswith("map:"))):
+        return "ControlStream" if pyclass(node["s"]) == "ControlStream" else "Stream"
+    if k in ("stream2", "un", "bin", "meth"):
+        return "Stream"
+    return None
+
+
+def fix_routes(node):
+    """ `s < o` written with operator syntax reaches s.__lt__(o) unless type(o) is a proper subclass of type(s):
+        then python tries o.__gt__(s) first (the mirrored comparison, a different term).  Such nodes are called
+        directly instead. """
+    if not isinstance(node, dict):
+        return node
+    q = dict(node)
+    for ch in ("a", "b", "s", "o"):
+        if ch in q and isinstance(q[ch], dict):
+            q[ch] = fix_routes(q[ch])
+    if q["k"] == "bin" and q.get("route") == "syntax" and base_of(q["d"])[0] in CMP:
+        if pyclass(q["s"]) == "Stream" and pyclass(q["o"]) in ("ControlStream", "thub"):
+            q["route"] = "direct"
+    return q
+
+
 def expr_case(prog, finite=None, n=12, **kw):
+    prog = fix_routes(prog)
     c = {"entry": "expr", "prog": prog}
     fin = is_finite(prog) if finite is None else finite
     if fin:
@@ -729,7 +827,7 @@ def cross_cases(tier):
     cases = []
     length_pairs = [(3, 3), (2, 4), (4, 2), (0, 3), (3, 0)] if tier == "quick" else \
         [(a, b) for a in range(0, 5) for b in range(0, 5)]
-    kinds = OTHER_KINDS if tier == "quick" else OTHER_KINDS + ["str", "dictkeys", "range"]
+    kinds = OTHER_KINDS + ["str"] if tier == "quick" else OTHER_KINDS + ["str", "dictkeys", "range"]
     for d in BIN_DUNDERS:
         for kind in kinds:
             for (ls, lo) in length_pairs:
@@ -1006,13 +1104,24 @@ def neighbours(c):
             yield expr_case(dict(p, d=d, route="direct"), fam=c.get("fam"), okind=c.get("okind"))
 
 
+def _op_class(d):
+    base, refl = base_of(d)
+    if base is None:
+        return "unknown-dunder"
+    cls = "unary" if base in UNARY else "comparison" if base in CMP else \
+        "bitwise-shift" if base in ("and", "or", "xor", "rshift", "lshift") else "arithmetic"
+    return ("reflected-" if refl else "") + cls
+
+
 def classify(c, io, drv):
+    """ signature = operation class + operand sort + failing condition (+ error); the concrete dunder and
+        operands are in the replay.  Coarse on purpose: one broken builder shows as one signature. """
     if c["entry"] == "optable":
         return "optable"
     if c["entry"] == "bcast":
         return classify_bcast(c, io, drv)
     p = c["prog"]
-    what = p.get("d", p.get("l", p["k"]))
+    what = _op_class(p["d"]) if p["k"] in ("bin", "un") else p["k"] + (":" + p["l"].split(":")[0] if p["k"] == "meth" else "")
     osort = ""
     if p["k"] == "bin":
         osort = "/scalar" if p["o"]["k"] in ("scalar", "ignored") else "/iterable"
@@ -1023,7 +1132,9 @@ def classify(c, io, drv):
         return "expr:%s%s:accepted-ill-typed" % (what, osort)
     if io.get("end", "").startswith("err"):
         return "expr:%s%s:%s" % (what, osort, io["end"])
-    if isinstance(spec.get("len"), int) and c.get("finite") and len(io.get("items", [])) != spec["len"]:
+    n = take_n(c)
+    want = n if spec.get("len") == "inf" else min(n, spec.get("len", 0))
+    if len(io.get("items", [])) != want:
         return "expr:%s%s:wrong-length" % (what, osort)
     return "expr:%s%s:wrong-element" % (what, osort)
 
@@ -1094,7 +1205,7 @@ def bfun(name):
     """ the public broadcast function of the library """
     if name in _bfun_cache:
         return _bfun_cache[name]
-    import audiolazy
+    audiolazy = AL()
     if name.startswith("trace."):
         dn, dp = TRACE_DECOS[name]
         f = audiolazy.elementwise(dn, dp)(_trace_raw)
@@ -1198,7 +1309,7 @@ def request_bcast(c):
 
 def impl_bcast(c):
     import types
-    from audiolazy import Stream, ControlStream, thub
+    Stream, ControlStream, thub = AL().Stream, AL().ControlStream, AL().thub
     raw, items = bcast_items(c)
     k = c["kind"]
     reads = [0]
@@ -1504,12 +1615,21 @@ def neighbours_bcast(c):
             yield bcast_case(fn, c["kind"], POOLS[BFUNCS[fn][2]] if c["kind"] != "str" else [{"T": "A4"}], "pos")
 
 
+def _kind_class(k):
+    return "scalar" if k in ("scalar", "str") else "sized" if k in SIZED else "stream" if k in STREAMS else "lazy"
+
+
 def classify_bcast(c, io, drv):
     spec = drv.get("spec", {})
+    fam = "trace" if c["func"].startswith("trace.") else "library"
+    route = c.get("route", "pos") + ("+extra" if c.get("before") or c.get("after") or c.get("kwargs") else "")
+    head = "bcast:%s/%s/%s" % (fam, _kind_class(c["kind"]), route)
     if "err" in io:
-        return "bcast:%s/%s:raised:%s" % (c["func"], c["kind"], io["err"])
+        return head + ":raised:" + io["err"]
     if io.get("out") != spec.get("out"):
-        return "bcast:%s/%s:kind:%s-instead-of-%s" % (c["func"], c["kind"], io.get("out"), spec.get("out"))
+        return head + ":kind:%s-instead-of-%s" % (io.get("out"), spec.get("out"))
     if io.get("reads0"):
-        return "bcast:%s/%s:read-at-call-time" % (c["func"], c["kind"])
-    return "bcast:%s/%s:wrong-element" % (c["func"], c["kind"])
+        return head + ":read-at-call-time"
+    if io.get("per_next") and io["per_next"] != list(range(1, len(io["per_next"]) + 1)):
+        return head + ":reads-per-next"
+    return head + ":wrong-element"
